@@ -14,4 +14,24 @@ theorem tie_sph_area_tail (pi r : Rat) (angles : List Rat) :
     Gen.sph_area_tail angles.sum (angles.length : Int) pi r = C17.areaFromAngles pi r angles := by
   simp [Gen.sph_area_tail, C17.areaFromAngles]
 
+/-- how the code names the model's picks: `self` is 1, `other` is 2 in `polys = [0, self, other]`, `None` is none -/
+def pickCode : C17.Pick → Option Int
+  | .self => some 1
+  | .other => some 2
+  | .none => none
+
+/-- the body of `if inter is None:` in `_bool_oper` (the two `_is_inside` calls are Boolean parameters), as translated from
+/repo's current source, is the model's `dispatch`: `sign = 1` is the union, `sign = -1` the intersection -/
+theorem tie_bool_oper_dispatch (union a b : Bool) :
+    Gen.bool_oper_dispatch (if union then 1 else -1) 1 2 a b = pickCode (C17.dispatch union a b) := by
+  cases union <;> cases a <;> cases b <;> decide
+
+/-- **the regenerated code**: for non-crossing outlines the union of nested polygons is the outer one, their intersection the
+inner one, and disjoint polygons give `None` — whichever of the two is `self` -/
+theorem code_dispatch_spec :
+    Gen.bool_oper_dispatch 1 1 2 true false = some 2 ∧ Gen.bool_oper_dispatch 1 1 2 false true = some 1 ∧
+    Gen.bool_oper_dispatch (-1) 1 2 true false = some 1 ∧ Gen.bool_oper_dispatch (-1) 1 2 false true = some 2 ∧
+    (∀ s, Gen.bool_oper_dispatch s 1 2 false false = none) := by
+  refine ⟨by decide, by decide, by decide, by decide, fun s => rfl⟩
+
 end PyresampleModel.Tie
